@@ -5,7 +5,8 @@
     reordered or answered with another errno in the source, a name that is no
     longer checked, a lookup without deferred DecRef, a backend call with other
     arguments or outside its wrapper, a changed InsertFID/DeleteFID makes
-    [handler_traces = model_traces] fail.  Plus the C09 table check: every
+    [handler_traces_alpha = model_traces] fail.  The literal parts are a hand-reviewed transcript
+    (regenerated from a reviewed source by tools/go2coq/regen_summaries.py); only the guards are derived from the model.  Plus the C09 table check: every
     string field of a T-message that is a path component is checked. *)
 From Coq Require Import NArith List String Bool.
 From P9V Require Import Base.Str gen.ConstGen gen.HandlerGen Server.Msg.
@@ -17,209 +18,216 @@ Definition errno_name (e : N) : string :=
   else if N.eqb e linux_ENOBUFS then "ENOBUFS" else if N.eqb e linux_EPERM then "EPERM"
   else if N.eqb e linux_EBUSY then "EBUSY" else if N.eqb e linux_EBADF then "EBADF" else "?".
 
+(** The traces compared are the ALPHA-normalised ones ([handler_traces_alpha]: every local identifier of a
+    function printed positionally, _v0 = receiver, _v1 = first parameter, ... in declaration order), so a
+    rename of a local variable in the Go source changes nothing here.  [N t cs ref tgt size]: the positional
+    names of the receiver message, the connState, the first / second looked-up fidRef and tread's [size]. *)
+Record names := N { n_t : string; n_cs : string; n_ref : string; n_tgt : string; n_size : string }.
+
 (** the Go condition each guard atom transcribes (inside the xattr switch the case is implied) *)
-Definition atom_src (a : gatom) : string :=
+Definition atom_src (n : names) (a : gatom) : string :=
+  let ref := n_ref n in let tgt := n_tgt n in let t := n_t n in let size := n_size n in
   match a with
-  | GDeleted => "ref.isDeleted()" | GNotDir => "!ref.mode.IsDir()" | GOpened => "ref.opened"
-  | GNotOpened => "!ref.opened" | GTDeleted => "refTarget.isDeleted()" | GTNotDir => "!refTarget.mode.IsDir()"
-  | GRoot => "ref.hasParent()" | GCantOpen => "!CanOpen(ref.mode)"
-  | GDirNotRO => "ref.mode.IsDir() && t.Flags.Mode() != ReadOnly" | GNotSymlink => "!ref.mode.IsSymlink()"
-  | GBusySame => "ref.opened && t.fid == t.newFID" | GCountBig => "int(t.Count) > int(maximumLength)"
-  | GNoPool => "cs.readBufPool.Get().(*[]byte)"
-  | GX0NotOpened => "!ref.opened" | GR0WriteOnly => "ref.openFlags&OpenFlagsModeMask == WriteOnly"
-  | GR2Empty => "t.Count == 0 && ref.pendingXattr.size != 0"
-  | GR2Range => "t.Offset > size || uint64(t.Count) > size-t.Offset"
-  | GRBadOp => "default" | GW0ReadOnly => "ref.openFlags&OpenFlagsModeMask == ReadOnly"
-  | GW1Off => "uint64(len(ref.pendingXattr.buf)) != t.Offset"
-  | GW1Big => "t.Offset+uint64(len(t.Data)) > ref.pendingXattr.size" | GWBadOp => "default"
+  | GDeleted => ref ++ ".isDeleted()" | GNotDir => "!" ++ ref ++ ".mode.IsDir()" | GOpened => ref ++ ".opened"
+  | GNotOpened => "!" ++ ref ++ ".opened" | GTDeleted => tgt ++ ".isDeleted()" | GTNotDir => "!" ++ tgt ++ ".mode.IsDir()"
+  | GRoot => ref ++ ".hasParent()" | GCantOpen => "!CanOpen(" ++ ref ++ ".mode)"
+  | GDirNotRO => ref ++ ".mode.IsDir() && " ++ t ++ ".Flags.Mode() != ReadOnly" | GNotSymlink => "!" ++ ref ++ ".mode.IsSymlink()"
+  | GBusySame => ref ++ ".opened && " ++ t ++ ".fid == " ++ t ++ ".newFID" | GCountBig => "int(" ++ t ++ ".Count) > int(maximumLength)"
+  | GNoPool => n_cs n ++ ".readBufPool.Get().(*[]byte)"
+  | GX0NotOpened => "!" ++ ref ++ ".opened" | GR0WriteOnly => ref ++ ".openFlags&OpenFlagsModeMask == WriteOnly"
+  | GR2Empty => t ++ ".Count == 0 && " ++ ref ++ ".pendingXattr.size != 0"
+  | GR2Range => t ++ ".Offset > " ++ size ++ " || uint64(" ++ t ++ ".Count) > " ++ size ++ "-" ++ t ++ ".Offset"
+  | GRBadOp => "default" | GW0ReadOnly => ref ++ ".openFlags&OpenFlagsModeMask == ReadOnly"
+  | GW1Off => "uint64(len(" ++ ref ++ ".pendingXattr.buf)) != " ++ t ++ ".Offset"
+  | GW1Big => t ++ ".Offset+uint64(len(" ++ t ++ ".Data)) > " ++ ref ++ ".pendingXattr.size" | GWBadOp => "default"
   end.
 
 Fixpoint join_or (l : list string) : string :=
   match l with [] => "" | [x] => x | x :: r => x ++ " || " ++ join_or r end.
 
-Definition render_guard (g : list gatom * gres) : list string :=
+Definition render_guard (n : names) (g : list gatom * gres) : list string :=
   match g with
   | ([GNoPool], GP) => ["pool-get"]
-  | ([GR2Empty], GE e) => ["if:t.Count == 0"; "if:ref.pendingXattr.size == 0"; "return:nil"; "endif"; "return:" ++ errno_name e; "endif"]
+  | ([GR2Empty], GE e) => ["if:" ++ n_t n ++ ".Count == 0"; "if:" ++ n_ref n ++ ".pendingXattr.size == 0"; "return:nil"; "endif"; "return:" ++ errno_name e; "endif"]
   | ([GRBadOp], GE e) | ([GWBadOp], GE e) => ["return:" ++ errno_name e]
-  | (atoms, GE e) => ["if:" ++ join_or (map atom_src atoms); "return:" ++ errno_name e; "endif"]
-  | (atoms, GP) => ["if:" ++ join_or (map atom_src atoms); "panic"; "endif"]
+  | (atoms, GE e) => ["if:" ++ join_or (map (atom_src n) atoms); "return:" ++ errno_name e; "endif"]
+  | (atoms, GP) => ["if:" ++ join_or (map (atom_src n) atoms); "panic"; "endif"]
   end.
 
 (** the i-th guard of a handler kind, as trace events *)
-Definition rg (k : hkind) (i : nat) : list string :=
-  match nth_error (guards_of k) i with Some g => render_guard g | None => ["<no such guard>"] end.
+Definition rg (n : names) (k : hkind) (i : nat) : list string :=
+  match nth_error (guards_of k) i with Some g => render_guard n g | None => ["<no such guard>"] end.
 
 Definition model_traces : list (string * list string) := [
   ("CanOpen",
-     (["return:mode.IsRegular() || mode.IsDir() || mode.IsNamedPipe() || mode.IsBlockDevice() || mode.IsCharacterDevice()"])%list);
+     (["return:_v0.IsRegular() || _v0.IsDir() || _v0.IsNamedPipe() || _v0.IsBlockDevice() || _v0.IsCharacterDevice()"])%list);
   ("checkSafeName",
-     (["if:name != """" && !strings.Contains(name, ""/"") && name != ""."" && name != "".."""; "return:nil"; "endif"; "return:EINVAL"])%list);
+     (["if:_v0 != """" && !strings.Contains(_v0, ""/"") && _v0 != ""."" && _v0 != "".."""; "return:nil"; "endif"; "return:EINVAL"])%list);
   ("clunkHandleXattr",
-     (["lookup:t.fid"; "if:!ok"; "return:EBADF"; "endif"; "defer:ref.DecRef"; "wrap:safelyRead:ref"; "if:ref.pendingXattr.op == xattrCreate"; "if:len(ref.pendingXattr.buf) != int(ref.pendingXattr.size)"; "return:EINVAL"; "endif"; "if:ref.pendingXattr.flags == XattrReplace && ref.pendingXattr.size == 0"; "call:ref.file.RemoveXattr(ref.pendingXattr.name)"; "return:ref.file.RemoveXattr(ref.pendingXattr.name)"; "endif"; "call:ref.file.SetXattr(ref.pendingXattr.name, ref.pendingXattr.buf, ref.pendingXattr.flags)"; "return:ref.file.SetXattr(ref.pendingXattr.name, ref.pendingXattr.buf, ref.pendingXattr.flags)"; "endif"; "return:nil"; "endwrap"; "if:err != nil"; "return:err"; "endif"; "return:nil"])%list);
+     (["lookup:_v1.fid=>_v2"; "if:!_v3"; "return:EBADF"; "endif"; "defer:_v2.DecRef"; "wrap:safelyRead:_v2"; "if:_v2.pendingXattr.op == xattrCreate"; "if:len(_v2.pendingXattr.buf) != int(_v2.pendingXattr.size)"; "return:EINVAL"; "endif"; "if:_v2.pendingXattr.flags == XattrReplace && _v2.pendingXattr.size == 0"; "call:_v2.file.RemoveXattr(_v2.pendingXattr.name)"; "return:_v2.file.RemoveXattr(_v2.pendingXattr.name)"; "endif"; "call:_v2.file.SetXattr(_v2.pendingXattr.name, _v2.pendingXattr.buf, _v2.pendingXattr.flags)"; "return:_v2.file.SetXattr(_v2.pendingXattr.name, _v2.pendingXattr.buf, _v2.pendingXattr.flags)"; "endif"; "return:nil"; "endwrap"; "if:_v4 != nil"; "return:err"; "endif"; "return:nil"])%list);
   ("connState.DeleteFID",
-     (["lock:cs.fidMu.Lock"; "if:ok"; "mapdelete:cs.fids, fid"; "endif"; "lock:cs.fidMu.Unlock"; "if:!ok"; "return:EBADF"; "endif"; "decref:fidRef"; "return:fidRef.DecRef()"])%list);
+     (["lock:_v0.fidMu.Lock"; "if:_v3"; "mapdelete:_v0.fids, _v1"; "endif"; "lock:_v0.fidMu.Unlock"; "if:!_v3"; "return:EBADF"; "endif"; "decref:_v2"; "return:_v2.DecRef()"])%list);
   ("connState.InsertFID",
-     (["lock:cs.fidMu.Lock"; "incref:newRef"; "set:cs.fids[fid]"; "lock:cs.fidMu.Unlock"; "if:ok"; "decref:origRef"; "endif"])%list);
+     (["lock:_v0.fidMu.Lock"; "incref:_v2"; "set:_v0.fids[_v1]"; "lock:_v0.fidMu.Unlock"; "if:_v4"; "decref:_v3"; "endif"])%list);
   ("connState.LookupFID",
-     (["lock:cs.fidMu.Lock"; "defer:cs.fidMu.Unlock"; "if:ok"; "incref:fidRef"; "return:fidRef,true"; "endif"; "return:nil,false"])%list);
+     (["lock:_v0.fidMu.Lock"; "defer:_v0.fidMu.Unlock"; "if:_v3"; "incref:_v2"; "return:_v2,true"; "endif"; "return:nil,false"])%list);
   ("connState.handle",
-     (["defer:func"; "if:r == nil"; "recover"; "seterr:r:EFAULT"; "endif"; "enddefer"; "if:ok"; "delegate:handler.handle(cs)"; "else"; "seterr:r:ENOSYS"; "endif"; "return:"])%list);
+     (["defer:func"; "if:_v2 == nil"; "recover"; "seterr:_v2:EFAULT"; "endif"; "enddefer"; "if:_v5"; "delegate:_v4.handle(_v0)"; "else"; "seterr:_v2:ENOSYS"; "endif"; "return:"])%list);
   ("doWalk",
-     (["for:range names"; "name:name"; "if:err != nil"; "return:"; "endif"; "endfor"; "if:len(names) == 0"; "if:ref.xattrOf != nil"; "return:nil,nil,AttrMask,Attr,EINVAL"; "endif"; "wrap:safelyRead:ref"; "delegate:walkOne(nil, ref.file, ref.pathNode, nil, getattr)"; "if:err != nil"; "return:err"; "endif"; "if:!ref.hasParent()"; "if:!newRef.isDeleted()"; "tree:ref.parent.pathNode.nameFor(ref)"; "tree:ref.parent.pathNode.addChild(newRef, ref.parent.pathNode.nameFor(ref))"; "endif"; "incref:ref.parent"; "endif"; "incref:newRef"; "return:nil"; "endwrap"; "if:err != nil"; "return:nil,nil,AttrMask,Attr,err"; "endif"; "return:nil,newRef,valid,attr,nil"; "endif"; "incref:walkRef"; "for:i < len(names)"; "if:!walkRef.mode.IsDir()"; "decref:walkRef"; "return:nil,nil,AttrMask,Attr,EINVAL"; "endif"; "wrap:safelyRead:walkRef"; "if:walkRef.isDeleted()"; "return:ENOENT"; "endif"; "delegate:walkOne(qids, walkRef.file, walkRef.pathNode, names[i : i+1], true)"; "if:err != nil"; "return:err"; "endif"; "tree:walkRef.pathNode.pathNodeFor(names[i])"; "tree:walkRef.pathNode.addChild(newRef, names[i])"; "incref:walkRef"; "return:nil"; "endwrap"; "if:err != nil"; "decref:walkRef"; "return:nil,nil,AttrMask,Attr,err"; "endif"; "endfor"; "return:qids,walkRef,valid,attr,nil"])%list);
+     (["for:range _v2"; "name:_v9"; "if:_v8 != nil"; "return:"; "endif"; "endfor"; "if:len(_v2) == 0"; "if:_v1.xattrOf != nil"; "return:nil,nil,AttrMask,Attr,EINVAL"; "endif"; "wrap:safelyRead:_v1"; "delegate:walkOne(nil, _v1.file, _v1.pathNode, nil, _v3)"; "if:_v8 != nil"; "return:_v8"; "endif"; "if:!_v1.hasParent()"; "if:!_v5.isDeleted()"; "tree:_v1.parent.pathNode.nameFor(_v1)"; "tree:_v1.parent.pathNode.addChild(_v5, _v1.parent.pathNode.nameFor(_v1))"; "endif"; "incref:_v1.parent"; "endif"; "incref:_v5"; "return:nil"; "endwrap"; "if:_v8 != nil"; "return:nil,nil,AttrMask,Attr,_v8"; "endif"; "return:nil,_v5,_v6,_v7,nil"; "endif"; "incref:_v11"; "for:_v12 < len(_v2)"; "if:!_v11.mode.IsDir()"; "decref:_v11"; "return:nil,nil,AttrMask,Attr,EINVAL"; "endif"; "wrap:safelyRead:_v11"; "if:_v11.isDeleted()"; "return:ENOENT"; "endif"; "delegate:walkOne(_v4, _v11.file, _v11.pathNode, _v2[_v12 : _v12+1], true)"; "if:_v8 != nil"; "return:_v8"; "endif"; "tree:_v11.pathNode.pathNodeFor(_v2[_v12])"; "tree:_v11.pathNode.addChild(_v5, _v2[_v12])"; "incref:_v11"; "return:nil"; "endwrap"; "if:_v8 != nil"; "decref:_v11"; "return:nil,nil,AttrMask,Attr,_v8"; "endif"; "endfor"; "return:_v4,_v11,_v6,_v7,nil"])%list);
   ("fidRef.DecRef",
-     (["atomic:AddInt64(&f.refs, -1)"; "if:atomic.AddInt64(&f.refs, -1) == 0"; "if:f.xattrOf != nil"; "decref:f.xattrOf"; "else"; "call:f.file.Close()"; "endif"; "if:err != nil"; "endif"; "if:f.parent != nil"; "tree:f.parent.pathNode.removeChild(f)"; "decref:f.parent"; "if:pErr != nil"; "endif"; "endif"; "return:errors.Join(errs...)"; "endif"; "return:nil"])%list);
+     (["atomic:AddInt64(&_v0.refs, -1)"; "if:atomic.AddInt64(&_v0.refs, -1) == 0"; "if:_v0.xattrOf != nil"; "decref:_v0.xattrOf"; "else"; "call:_v0.file.Close()"; "endif"; "if:_v2 != nil"; "endif"; "if:_v0.parent != nil"; "tree:_v0.parent.pathNode.removeChild(_v0)"; "decref:_v0.parent"; "if:_v3 != nil"; "endif"; "endif"; "return:errors.Join(_v1...)"; "endif"; "return:nil"])%list);
   ("fidRef.safelyGlobal",
-     (["lock:f.server.renameMu.Lock"; "defer:f.server.renameMu.Unlock"; "return:fn()"])%list);
+     (["lock:_v0.server.renameMu.Lock"; "defer:_v0.server.renameMu.Unlock"; "return:_v1()"])%list);
   ("fidRef.safelyRead",
-     (["lock:f.server.renameMu.RLock"; "defer:f.server.renameMu.RUnlock"; "lock:f.pathNode.opMu.RLock"; "defer:f.pathNode.opMu.RUnlock"; "return:fn()"])%list);
+     (["lock:_v0.server.renameMu.RLock"; "defer:_v0.server.renameMu.RUnlock"; "lock:_v0.pathNode.opMu.RLock"; "defer:_v0.pathNode.opMu.RUnlock"; "return:_v1()"])%list);
   ("fidRef.safelyWrite",
-     (["lock:f.server.renameMu.RLock"; "defer:f.server.renameMu.RUnlock"; "lock:f.pathNode.opMu.Lock"; "defer:f.pathNode.opMu.Unlock"; "return:fn()"])%list);
+     (["lock:_v0.server.renameMu.RLock"; "defer:_v0.server.renameMu.RUnlock"; "lock:_v0.pathNode.opMu.Lock"; "defer:_v0.pathNode.opMu.Unlock"; "return:_v1()"])%list);
   ("tattach.handle",
-     (["if:t.Auth.Authenticationfid != noFID"; "return:EINVAL"; "endif"; "if:path.IsAbs(t.Auth.AttachName)"; "set:t.Auth.AttachName"; "endif"; "call:attacher.Attach()"; "if:err != nil"; "return:err"; "endif"; "defer:root.DecRef"; "wrap:safelyRead:root"; "call:sf.GetAttr(AttrMaskAll)"; "return:err"; "endwrap"; "if:err != nil"; "return:err"; "endif"; "if:!valid.Mode"; "return:EINVAL"; "endif"; "set:root.mode"; "if:len(t.Auth.AttachName) == 0"; "insert:t.fid:root"; "return:&rattach"; "endif"; "delegate:doWalk(cs, root, names, false)"; "if:err != nil"; "return:err"; "endif"; "defer:newRef.DecRef"; "insert:t.fid:newRef"; "return:&rattach"])%list);
+     (["if:_v0.Auth.Authenticationfid != noFID"; "return:EINVAL"; "endif"; "if:path.IsAbs(_v0.Auth.AttachName)"; "set:_v0.Auth.AttachName"; "endif"; "call:attacher.Attach()"; "if:_v3 != nil"; "return:err"; "endif"; "defer:_v4.DecRef"; "wrap:safelyRead:_v4"; "call:<_v2>.GetAttr(AttrMaskAll)"; "return:_v3"; "endwrap"; "if:_v3 != nil"; "return:err"; "endif"; "if:!_v6.Mode"; "return:EINVAL"; "endif"; "set:_v4.mode"; "if:len(_v0.Auth.AttachName) == 0"; "insert:_v0.fid:_v4"; "return:&rattach"; "endif"; "delegate:doWalk(_v1, _v4, _v8, false)"; "if:_v3 != nil"; "return:err"; "endif"; "defer:_v9.DecRef"; "insert:_v0.fid:_v9"; "return:&rattach"])%list);
   ("tauth.handle",
      (["return:ENOSYS"])%list);
   ("tclunk.handle",
-     (["delegate:clunkHandleXattr(cs, t)"; "delete:t.fid"; "if:err != nil"; "return:err"; "endif"; "if:cerr != nil"; "return:cerr"; "endif"; "return:&rclunk"])%list);
+     (["delegate:clunkHandleXattr(_v1, _v0)"; "delete:_v0.fid"; "if:_v3 != nil"; "return:err"; "endif"; "if:_v2 != nil"; "return:_v2"; "endif"; "return:&rclunk"])%list);
   ("tfsync.handle",
-     (["lookup:t.fid"; "if:!ok"; "return:EBADF"; "endif"; "defer:ref.DecRef"; "wrap:safelyRead:ref"]
-     ++ rg HFsync 0
-     ++ ["call:ref.file.FSync()"; "return:ref.file.FSync()"; "endwrap"; "if:err != nil"; "return:err"; "endif"; "return:&rfsync"])%list);
+     (["lookup:_v0.fid=>_v2"; "if:!_v3"; "return:EBADF"; "endif"; "defer:_v2.DecRef"; "wrap:safelyRead:_v2"]
+     ++ rg (N "" "" "_v2" "" "") HFsync 0
+     ++ ["call:_v2.file.FSync()"; "return:_v2.file.FSync()"; "endwrap"; "if:_v4 != nil"; "return:err"; "endif"; "return:&rfsync"])%list);
   ("tgetattr.handle",
-     (["lookup:t.fid"; "if:!ok"; "return:EBADF"; "endif"; "defer:ref.DecRef"; "wrap:safelyRead:ref"; "call:ref.file.GetAttr(t.AttrMask)"; "return:err"; "endwrap"; "if:err != nil"; "return:err"; "endif"; "return:&rgetattr"])%list);
+     (["lookup:_v0.fid=>_v2"; "if:!_v3"; "return:EBADF"; "endif"; "defer:_v2.DecRef"; "wrap:safelyRead:_v2"; "call:_v2.file.GetAttr(_v0.AttrMask)"; "return:_v7"; "endwrap"; "if:_v7 != nil"; "return:err"; "endif"; "return:&rgetattr"])%list);
   ("tlcreate.do",
-     (["name:t.Name"; "if:err != nil"; "return:nil,err"; "endif"; "lookup:t.fid"; "if:!ok"; "return:nil,EBADF"; "endif"; "defer:ref.DecRef"; "wrap:safelyWrite:ref"]
-     ++ rg HLcreate 0
-     ++ rg HLcreate 1
-     ++ ["call:ref.file.Create(t.Name, t.OpenFlags, t.Permissions, uid, t.GID)"; "if:err != nil"; "return:err"; "endif"; "tree:ref.pathNode.pathNodeFor(t.Name)"; "tree:ref.pathNode.addChild(newRef, t.Name)"; "incref:ref"; "return:nil"; "endwrap"; "if:err != nil"; "return:nil,err"; "endif"; "insert:t.fid:newRef"; "return:&rlcreate,nil"])%list);
+     (["name:_v0.Name"; "if:_v3 != nil"; "return:nil,_v3"; "endif"; "lookup:_v0.fid=>_v4"; "if:!_v5"; "return:nil,EBADF"; "endif"; "defer:_v4.DecRef"; "wrap:safelyWrite:_v4"]
+     ++ rg (N "_v0" "" "_v4" "" "") HLcreate 0
+     ++ rg (N "_v0" "" "_v4" "" "") HLcreate 1
+     ++ ["call:_v4.file.Create(_v0.Name, _v0.OpenFlags, _v0.Permissions, _v2, _v0.GID)"; "if:_v3 != nil"; "return:_v3"; "endif"; "tree:_v4.pathNode.pathNodeFor(_v0.Name)"; "tree:_v4.pathNode.addChild(_v9, _v0.Name)"; "incref:_v4"; "return:nil"; "endwrap"; "if:_v3 != nil"; "return:nil,_v3"; "endif"; "insert:_v0.fid:_v9"; "return:&rlcreate,nil"])%list);
   ("tlcreate.handle",
-     (["delegate:t.do(cs, NoUID)"; "if:err != nil"; "return:err"; "endif"; "return:rlcreate"])%list);
+     (["delegate:_v0.do(_v1, NoUID)"; "if:_v3 != nil"; "return:err"; "endif"; "return:_v2"])%list);
   ("tlink.handle",
-     (["name:t.Name"; "if:err != nil"; "return:err"; "endif"; "lookup:t.Directory"; "if:!ok"; "return:EBADF"; "endif"; "defer:ref.DecRef"; "lookup:t.Target"; "if:!ok"; "return:EBADF"; "endif"; "defer:refTarget.DecRef"; "wrap:safelyWrite:ref"]
-     ++ rg HLink 0
-     ++ rg HLink 1
-     ++ ["call:ref.file.Link(refTarget.file, t.Name)"; "return:ref.file.Link(refTarget.file, t.Name)"; "endwrap"; "if:err != nil"; "return:err"; "endif"; "return:&rlink"])%list);
+     (["name:_v0.Name"; "if:_v2 != nil"; "return:err"; "endif"; "lookup:_v0.Directory=>_v3"; "if:!_v4"; "return:EBADF"; "endif"; "defer:_v3.DecRef"; "lookup:_v0.Target=>_v5"; "if:!_v4"; "return:EBADF"; "endif"; "defer:_v5.DecRef"; "wrap:safelyWrite:_v3"]
+     ++ rg (N "_v0" "" "_v3" "_v5" "") HLink 0
+     ++ rg (N "_v0" "" "_v3" "_v5" "") HLink 1
+     ++ ["call:_v3.file.Link(_v5.file, _v0.Name)"; "return:_v3.file.Link(_v5.file, _v0.Name)"; "endwrap"; "if:_v2 != nil"; "return:err"; "endif"; "return:&rlink"])%list);
   ("tlock.handle",
-     (["lookup:t.fid"; "if:!ok"; "return:EBADF"; "endif"; "defer:ref.DecRef"; "call:ref.file.Lock(int(t.PID), t.Type, t.Flags, t.Start, t.Length, t.Client)"; "if:err != nil"; "return:err"; "endif"; "return:&rlock"])%list);
+     (["lookup:_v0.fid=>_v2"; "if:!_v3"; "return:EBADF"; "endif"; "defer:_v2.DecRef"; "call:_v2.file.Lock(int(_v0.PID), _v0.Type, _v0.Flags, _v0.Start, _v0.Length, _v0.Client)"; "if:_v5 != nil"; "return:err"; "endif"; "return:&rlock"])%list);
   ("tlopen.handle",
-     (["lookup:t.fid"; "if:!ok"; "return:EBADF"; "endif"; "defer:ref.DecRef"; "lock:ref.openMu.Lock"; "defer:ref.openMu.Unlock"; "wrap:safelyRead:ref"]
-     ++ rg HLopen 0
-     ++ rg HLopen 1
-     ++ rg HLopen 2
-     ++ ["call:ref.file.Open(t.Flags)"; "if:err != nil"; "return:err"; "endif"; "set:ref.opened"; "set:ref.openFlags"; "return:nil"; "endwrap"; "if:err != nil"; "return:err"; "endif"; "return:&rlopen"])%list);
+     (["lookup:_v0.fid=>_v2"; "if:!_v3"; "return:EBADF"; "endif"; "defer:_v2.DecRef"; "lock:_v2.openMu.Lock"; "defer:_v2.openMu.Unlock"; "wrap:safelyRead:_v2"]
+     ++ rg (N "_v0" "" "_v2" "" "") HLopen 0
+     ++ rg (N "_v0" "" "_v2" "" "") HLopen 1
+     ++ rg (N "_v0" "" "_v2" "" "") HLopen 2
+     ++ ["call:_v2.file.Open(_v0.Flags)"; "if:_v6 != nil"; "return:_v6"; "endif"; "set:_v2.opened"; "set:_v2.openFlags"; "return:nil"; "endwrap"; "if:_v6 != nil"; "return:err"; "endif"; "return:&rlopen"])%list);
   ("tmkdir.do",
-     (["name:t.Name"; "if:err != nil"; "return:nil,err"; "endif"; "lookup:t.Directory"; "if:!ok"; "return:nil,EBADF"; "endif"; "defer:ref.DecRef"; "wrap:safelyWrite:ref"]
-     ++ rg HMkdir 0
-     ++ rg HMkdir 1
-     ++ ["call:ref.file.Mkdir(t.Name, t.Permissions, uid, t.GID)"; "return:err"; "endwrap"; "if:err != nil"; "return:nil,err"; "endif"; "return:&rmkdir,nil"])%list);
+     (["name:_v0.Name"; "if:_v3 != nil"; "return:nil,_v3"; "endif"; "lookup:_v0.Directory=>_v4"; "if:!_v5"; "return:nil,EBADF"; "endif"; "defer:_v4.DecRef"; "wrap:safelyWrite:_v4"]
+     ++ rg (N "_v0" "" "_v4" "" "") HMkdir 0
+     ++ rg (N "_v0" "" "_v4" "" "") HMkdir 1
+     ++ ["call:_v4.file.Mkdir(_v0.Name, _v0.Permissions, _v2, _v0.GID)"; "return:_v3"; "endwrap"; "if:_v3 != nil"; "return:nil,_v3"; "endif"; "return:&rmkdir,nil"])%list);
   ("tmkdir.handle",
-     (["delegate:t.do(cs, NoUID)"; "if:err != nil"; "return:err"; "endif"; "return:rmkdir"])%list);
+     (["delegate:_v0.do(_v1, NoUID)"; "if:_v3 != nil"; "return:err"; "endif"; "return:_v2"])%list);
   ("tmknod.do",
-     (["name:t.Name"; "if:err != nil"; "return:nil,err"; "endif"; "lookup:t.Directory"; "if:!ok"; "return:nil,EBADF"; "endif"; "defer:ref.DecRef"; "wrap:safelyWrite:ref"]
-     ++ rg HMknod 0
-     ++ rg HMknod 1
-     ++ ["call:ref.file.Mknod(t.Name, t.Mode, t.Major, t.Minor, uid, t.GID)"; "return:err"; "endwrap"; "if:err != nil"; "return:nil,err"; "endif"; "return:&rmknod,nil"])%list);
+     (["name:_v0.Name"; "if:_v3 != nil"; "return:nil,_v3"; "endif"; "lookup:_v0.Directory=>_v4"; "if:!_v5"; "return:nil,EBADF"; "endif"; "defer:_v4.DecRef"; "wrap:safelyWrite:_v4"]
+     ++ rg (N "_v0" "" "_v4" "" "") HMknod 0
+     ++ rg (N "_v0" "" "_v4" "" "") HMknod 1
+     ++ ["call:_v4.file.Mknod(_v0.Name, _v0.Mode, _v0.Major, _v0.Minor, _v2, _v0.GID)"; "return:_v3"; "endwrap"; "if:_v3 != nil"; "return:nil,_v3"; "endif"; "return:&rmknod,nil"])%list);
   ("tmknod.handle",
-     (["delegate:t.do(cs, NoUID)"; "if:err != nil"; "return:err"; "endif"; "return:rmknod"])%list);
+     (["delegate:_v0.do(_v1, NoUID)"; "if:_v3 != nil"; "return:err"; "endif"; "return:_v2"])%list);
   ("tread.handle",
-     (["lookup:t.fid"; "if:!ok"; "return:EBADF"; "endif"; "defer:ref.DecRef"]
-     ++ rg HRead 0
-     ++ ["if:count > max"; "endif"]
-     ++ rg HRead 1
-     ++ ["wrap:safelyRead:ref"; "switch:ref.pendingXattr.op"; "case:xattrNone"]
-     ++ rg HRead 2
-     ++ rg HRead 3
-     ++ ["call:ref.file.ReadAt(dataBuf[:count], int64(t.Offset))"; "return:err"; "case:xattrWalk"]
-     ++ rg HRead 4
-     ++ rg HRead 5
+     (["lookup:_v0.fid=>_v2"; "if:!_v3"; "return:EBADF"; "endif"; "defer:_v2.DecRef"]
+     ++ rg (N "_v0" "" "_v2" "" "_v10") HRead 0
+     ++ ["if:_v4 > _v5"; "endif"]
+     ++ rg (N "_v0" "" "_v2" "" "_v10") HRead 1
+     ++ ["wrap:safelyRead:_v2"; "switch:_v2.pendingXattr.op"; "case:xattrNone"]
+     ++ rg (N "_v0" "" "_v2" "" "_v10") HRead 2
+     ++ rg (N "_v0" "" "_v2" "" "_v10") HRead 3
+     ++ ["call:_v2.file.ReadAt(_v8[:_v4], int64(_v0.Offset))"; "return:_v9"; "case:xattrWalk"]
+     ++ rg (N "_v0" "" "_v2" "" "_v10") HRead 4
+     ++ rg (N "_v0" "" "_v2" "" "_v10") HRead 5
      ++ ["return:nil"; "default"]
-     ++ rg HRead 6
-     ++ ["endswitch"; "endwrap"; "if:err != nil && !errors.Is(err, io.EOF)"; "return:err"; "endif"; "return:&rreadServerPayloader"])%list);
+     ++ rg (N "_v0" "" "_v2" "" "_v10") HRead 6
+     ++ ["endswitch"; "endwrap"; "if:_v9 != nil && !errors.Is(_v9, io.EOF)"; "return:err"; "endif"; "return:&rreadServerPayloader"])%list);
   ("treaddir.handle",
-     (["lookup:t.Directory"; "if:!ok"; "return:EBADF"; "endif"; "defer:ref.DecRef"; "wrap:safelyRead:ref"]
-     ++ rg HReaddir 0
-     ++ rg HReaddir 1
-     ++ ["call:ref.file.Readdir(t.Offset, t.Count)"; "if:err != nil && !errors.Is(err, io.EOF)"; "return:err"; "endif"; "return:nil"; "endwrap"; "if:err != nil"; "return:err"; "endif"; "if:count > max"; "endif"; "return:&rreaddir"])%list);
+     (["lookup:_v0.Directory=>_v2"; "if:!_v3"; "return:EBADF"; "endif"; "defer:_v2.DecRef"; "wrap:safelyRead:_v2"]
+     ++ rg (N "_v0" "" "_v2" "" "") HReaddir 0
+     ++ rg (N "_v0" "" "_v2" "" "") HReaddir 1
+     ++ ["call:_v2.file.Readdir(_v0.Offset, _v0.Count)"; "if:_v5 != nil && !errors.Is(_v5, io.EOF)"; "return:_v5"; "endif"; "return:nil"; "endwrap"; "if:_v5 != nil"; "return:err"; "endif"; "if:_v6 > _v7"; "endif"; "return:&rreaddir"])%list);
   ("treadlink.handle",
-     (["lookup:t.fid"; "if:!ok"; "return:EBADF"; "endif"; "defer:ref.DecRef"; "wrap:safelyRead:ref"]
-     ++ rg HReadlink 0
-     ++ ["call:ref.file.Readlink()"; "return:err"; "endwrap"; "if:err != nil"; "return:err"; "endif"; "return:&rreadlink"])%list);
+     (["lookup:_v0.fid=>_v2"; "if:!_v3"; "return:EBADF"; "endif"; "defer:_v2.DecRef"; "wrap:safelyRead:_v2"]
+     ++ rg (N "" "" "_v2" "" "") HReadlink 0
+     ++ ["call:_v2.file.Readlink()"; "return:_v5"; "endwrap"; "if:_v5 != nil"; "return:err"; "endif"; "return:&rreadlink"])%list);
   ("tremove.handle",
-     (["lookup:t.fid"; "if:!ok"; "return:EBADF"; "endif"; "defer:ref.DecRef"; "wrap:safelyGlobal:ref"]
-     ++ rg HRemove 0
-     ++ rg HRemove 1
-     ++ ["tree:ref.parent.pathNode.nameFor(ref)"; "call:ref.parent.file.UnlinkAt(name, 0)"; "if:err != nil"; "return:err"; "endif"; "tree:ref.parent.markChildDeleted(name)"; "return:nil"; "endwrap"; "delete:t.fid"; "if:fidErr != nil"; "return:err"; "endif"; "if:err != nil"; "return:err"; "endif"; "return:&rremove"])%list);
+     (["lookup:_v0.fid=>_v2"; "if:!_v3"; "return:EBADF"; "endif"; "defer:_v2.DecRef"; "wrap:safelyGlobal:_v2"]
+     ++ rg (N "_v0" "" "_v2" "" "") HRemove 0
+     ++ rg (N "_v0" "" "_v2" "" "") HRemove 1
+     ++ ["tree:_v2.parent.pathNode.nameFor(_v2)"; "call:_v2.parent.file.UnlinkAt(_v5, 0)"; "if:_v4 != nil"; "return:_v4"; "endif"; "tree:_v2.parent.markChildDeleted(_v5)"; "return:nil"; "endwrap"; "delete:_v0.fid"; "if:_v6 != nil"; "return:err"; "endif"; "if:_v4 != nil"; "return:err"; "endif"; "return:&rremove"])%list);
   ("trename.handle",
-     (["name:t.Name"; "if:err != nil"; "return:err"; "endif"; "lookup:t.fid"; "if:!ok"; "return:EBADF"; "endif"; "defer:ref.DecRef"; "lookup:t.Directory"; "if:!ok"; "return:EBADF"; "endif"; "defer:refTarget.DecRef"; "wrap:safelyGlobal:ref"]
-     ++ rg HRename 0
-     ++ rg HRename 1
-     ++ ["if:ref.parent.isDeleted()"; "panic"; "endif"; "tree:ref.parent.pathNode.nameFor(ref)"; "if:ref.parent.pathNode == refTarget.pathNode && oldName == t.Name"; "return:nil"; "endif"; "call:ref.parent.file.RenameAt(oldName, refTarget.file, t.Name)"; "if:err != nil"; "return:err"; "endif"; "tree:ref.parent.renameChildTo(oldName, refTarget, t.Name)"; "return:nil"; "endwrap"; "if:err != nil"; "return:err"; "endif"; "return:&rrename"])%list);
+     (["name:_v0.Name"; "if:_v2 != nil"; "return:err"; "endif"; "lookup:_v0.fid=>_v3"; "if:!_v4"; "return:EBADF"; "endif"; "defer:_v3.DecRef"; "lookup:_v0.Directory=>_v5"; "if:!_v4"; "return:EBADF"; "endif"; "defer:_v5.DecRef"; "wrap:safelyGlobal:_v3"]
+     ++ rg (N "_v0" "" "_v3" "_v5" "") HRename 0
+     ++ rg (N "_v0" "" "_v3" "_v5" "") HRename 1
+     ++ ["if:_v3.parent.isDeleted()"; "panic"; "endif"; "tree:_v3.parent.pathNode.nameFor(_v3)"; "if:_v3.parent.pathNode == _v5.pathNode && _v6 == _v0.Name"; "return:nil"; "endif"; "call:_v3.parent.file.RenameAt(_v6, _v5.file, _v0.Name)"; "if:_v2 != nil"; "return:_v2"; "endif"; "tree:_v3.parent.renameChildTo(_v6, _v5, _v0.Name)"; "return:nil"; "endwrap"; "if:_v2 != nil"; "return:err"; "endif"; "return:&rrename"])%list);
   ("trenameat.handle",
-     (["name:t.OldName"; "if:err != nil"; "return:err"; "endif"; "name:t.NewName"; "if:err != nil"; "return:err"; "endif"; "lookup:t.OldDirectory"; "if:!ok"; "return:EBADF"; "endif"; "defer:ref.DecRef"; "lookup:t.NewDirectory"; "if:!ok"; "return:EBADF"; "endif"; "defer:refTarget.DecRef"; "wrap:safelyGlobal:ref"]
-     ++ rg HRenameat 0
-     ++ rg HRenameat 1
-     ++ ["if:ref.pathNode == refTarget.pathNode && t.OldName == t.NewName"; "return:nil"; "endif"; "call:ref.file.RenameAt(t.OldName, refTarget.file, t.NewName)"; "if:err != nil"; "return:err"; "endif"; "tree:ref.renameChildTo(t.OldName, refTarget, t.NewName)"; "return:nil"; "endwrap"; "if:err != nil"; "return:err"; "endif"; "return:&rrenameat"])%list);
+     (["name:_v0.OldName"; "if:_v2 != nil"; "return:err"; "endif"; "name:_v0.NewName"; "if:_v2 != nil"; "return:err"; "endif"; "lookup:_v0.OldDirectory=>_v3"; "if:!_v4"; "return:EBADF"; "endif"; "defer:_v3.DecRef"; "lookup:_v0.NewDirectory=>_v5"; "if:!_v4"; "return:EBADF"; "endif"; "defer:_v5.DecRef"; "wrap:safelyGlobal:_v3"]
+     ++ rg (N "_v0" "" "_v3" "_v5" "") HRenameat 0
+     ++ rg (N "_v0" "" "_v3" "_v5" "") HRenameat 1
+     ++ ["if:_v3.pathNode == _v5.pathNode && _v0.OldName == _v0.NewName"; "return:nil"; "endif"; "call:_v3.file.RenameAt(_v0.OldName, _v5.file, _v0.NewName)"; "if:_v2 != nil"; "return:_v2"; "endif"; "tree:_v3.renameChildTo(_v0.OldName, _v5, _v0.NewName)"; "return:nil"; "endwrap"; "if:_v2 != nil"; "return:err"; "endif"; "return:&rrenameat"])%list);
   ("tsetattr.handle",
-     (["lookup:t.fid"; "if:!ok"; "return:EBADF"; "endif"; "defer:ref.DecRef"; "wrap:safelyWrite:ref"]
-     ++ rg HSetattr 0
-     ++ ["call:ref.file.SetAttr(t.Valid, t.SetAttr)"; "return:ref.file.SetAttr(t.Valid, t.SetAttr)"; "endwrap"; "if:err != nil"; "return:err"; "endif"; "return:&rsetattr"])%list);
+     (["lookup:_v0.fid=>_v2"; "if:!_v3"; "return:EBADF"; "endif"; "defer:_v2.DecRef"; "wrap:safelyWrite:_v2"]
+     ++ rg (N "_v0" "" "_v2" "" "") HSetattr 0
+     ++ ["call:_v2.file.SetAttr(_v0.Valid, _v0.SetAttr)"; "return:_v2.file.SetAttr(_v0.Valid, _v0.SetAttr)"; "endwrap"; "if:_v4 != nil"; "return:err"; "endif"; "return:&rsetattr"])%list);
   ("tstatfs.handle",
-     (["lookup:t.fid"; "if:!ok"; "return:EBADF"; "endif"; "defer:ref.DecRef"; "call:ref.file.StatFS()"; "if:err != nil"; "return:err"; "endif"; "return:&rstatfs"])%list);
+     (["lookup:_v0.fid=>_v2"; "if:!_v3"; "return:EBADF"; "endif"; "defer:_v2.DecRef"; "call:_v2.file.StatFS()"; "if:_v5 != nil"; "return:err"; "endif"; "return:&rstatfs"])%list);
   ("tsymlink.do",
-     (["name:t.Name"; "if:err != nil"; "return:nil,err"; "endif"; "lookup:t.Directory"; "if:!ok"; "return:nil,EBADF"; "endif"; "defer:ref.DecRef"; "wrap:safelyWrite:ref"]
-     ++ rg HSymlink 0
-     ++ rg HSymlink 1
-     ++ ["call:ref.file.Symlink(t.Target, t.Name, uid, t.GID)"; "return:err"; "endwrap"; "if:err != nil"; "return:nil,err"; "endif"; "return:&rsymlink,nil"])%list);
+     (["name:_v0.Name"; "if:_v3 != nil"; "return:nil,_v3"; "endif"; "lookup:_v0.Directory=>_v4"; "if:!_v5"; "return:nil,EBADF"; "endif"; "defer:_v4.DecRef"; "wrap:safelyWrite:_v4"]
+     ++ rg (N "_v0" "" "_v4" "" "") HSymlink 0
+     ++ rg (N "_v0" "" "_v4" "" "") HSymlink 1
+     ++ ["call:_v4.file.Symlink(_v0.Target, _v0.Name, _v2, _v0.GID)"; "return:_v3"; "endwrap"; "if:_v3 != nil"; "return:nil,_v3"; "endif"; "return:&rsymlink,nil"])%list);
   ("tsymlink.handle",
-     (["delegate:t.do(cs, NoUID)"; "if:err != nil"; "return:err"; "endif"; "return:rsymlink"])%list);
+     (["delegate:_v0.do(_v1, NoUID)"; "if:_v3 != nil"; "return:err"; "endif"; "return:_v2"])%list);
   ("tucreate.handle",
-     (["delegate:t.tlcreate.do(cs, t.UID)"; "if:err != nil"; "return:err"; "endif"; "return:&rucreate"])%list);
+     (["delegate:_v0.tlcreate.do(_v1, _v0.UID)"; "if:_v3 != nil"; "return:err"; "endif"; "return:&rucreate"])%list);
   ("tumkdir.handle",
-     (["delegate:t.tmkdir.do(cs, t.UID)"; "if:err != nil"; "return:err"; "endif"; "return:&rumkdir"])%list);
+     (["delegate:_v0.tmkdir.do(_v1, _v0.UID)"; "if:_v3 != nil"; "return:err"; "endif"; "return:&rumkdir"])%list);
   ("tumknod.handle",
-     (["delegate:t.tmknod.do(cs, t.UID)"; "if:err != nil"; "return:err"; "endif"; "return:&rumknod"])%list);
+     (["delegate:_v0.tmknod.do(_v1, _v0.UID)"; "if:_v3 != nil"; "return:err"; "endif"; "return:&rumknod"])%list);
   ("tunlinkat.handle",
-     (["name:t.Name"; "if:err != nil"; "return:err"; "endif"; "lookup:t.Directory"; "if:!ok"; "return:EBADF"; "endif"; "defer:ref.DecRef"; "wrap:safelyWrite:ref"]
-     ++ rg HUnlinkat 0
-     ++ rg HUnlinkat 1
-     ++ ["tree:ref.pathNode.pathNodeFor(t.Name)"; "lock:childPathNode.opMu.Lock"; "defer:childPathNode.opMu.Unlock"; "call:ref.file.UnlinkAt(t.Name, t.Flags)"; "if:err != nil"; "return:err"; "endif"; "tree:ref.markChildDeleted(t.Name)"; "return:nil"; "endwrap"; "if:err != nil"; "return:err"; "endif"; "return:&runlinkat"])%list);
+     (["name:_v0.Name"; "if:_v2 != nil"; "return:err"; "endif"; "lookup:_v0.Directory=>_v3"; "if:!_v4"; "return:EBADF"; "endif"; "defer:_v3.DecRef"; "wrap:safelyWrite:_v3"]
+     ++ rg (N "_v0" "" "_v3" "" "") HUnlinkat 0
+     ++ rg (N "_v0" "" "_v3" "" "") HUnlinkat 1
+     ++ ["tree:_v3.pathNode.pathNodeFor(_v0.Name)"; "lock:_v5.opMu.Lock"; "defer:_v5.opMu.Unlock"; "call:_v3.file.UnlinkAt(_v0.Name, _v0.Flags)"; "if:_v2 != nil"; "return:_v2"; "endif"; "tree:_v3.markChildDeleted(_v0.Name)"; "return:nil"; "endwrap"; "if:_v2 != nil"; "return:err"; "endif"; "return:&runlinkat"])%list);
   ("tusymlink.handle",
-     (["delegate:t.tsymlink.do(cs, t.UID)"; "if:err != nil"; "return:err"; "endif"; "return:&rusymlink"])%list);
+     (["delegate:_v0.tsymlink.do(_v1, _v0.UID)"; "if:_v3 != nil"; "return:err"; "endif"; "return:&rusymlink"])%list);
   ("twalk.handle",
-     (["lookup:t.fid"; "if:!ok"; "return:EBADF"; "endif"; "defer:ref.DecRef"; "wrap:safelyRead:ref"]
-     ++ rg HWalk 0
-     ++ ["return:nil"; "endwrap"; "if:err != nil"; "return:err"; "endif"; "delegate:doWalk(cs, ref, t.Names, false)"; "if:err != nil"; "return:err"; "endif"; "defer:newRef.DecRef"; "insert:t.newFID:newRef"; "return:&rwalk"])%list);
+     (["lookup:_v0.fid=>_v2"; "if:!_v3"; "return:EBADF"; "endif"; "defer:_v2.DecRef"; "wrap:safelyRead:_v2"]
+     ++ rg (N "_v0" "_v1" "_v2" "" "") HWalk 0
+     ++ ["return:nil"; "endwrap"; "if:_v4 != nil"; "return:err"; "endif"; "delegate:doWalk(_v1, _v2, _v0.Names, false)"; "if:_v4 != nil"; "return:err"; "endif"; "defer:_v6.DecRef"; "insert:_v0.newFID:_v6"; "return:&rwalk"])%list);
   ("twalkgetattr.handle",
-     (["lookup:t.fid"; "if:!ok"; "return:EBADF"; "endif"; "defer:ref.DecRef"; "wrap:safelyRead:ref"]
-     ++ rg HWalkgetattr 0
-     ++ ["return:nil"; "endwrap"; "if:err != nil"; "return:err"; "endif"; "delegate:doWalk(cs, ref, t.Names, true)"; "if:err != nil"; "return:err"; "endif"; "defer:newRef.DecRef"; "insert:t.newFID:newRef"; "return:&rwalkgetattr"])%list);
+     (["lookup:_v0.fid=>_v2"; "if:!_v3"; "return:EBADF"; "endif"; "defer:_v2.DecRef"; "wrap:safelyRead:_v2"]
+     ++ rg (N "_v0" "_v1" "_v2" "" "") HWalkgetattr 0
+     ++ ["return:nil"; "endwrap"; "if:_v4 != nil"; "return:err"; "endif"; "delegate:doWalk(_v1, _v2, _v0.Names, true)"; "if:_v4 != nil"; "return:err"; "endif"; "defer:_v6.DecRef"; "insert:_v0.newFID:_v6"; "return:&rwalkgetattr"])%list);
   ("twrite.handle",
-     (["lookup:t.fid"; "if:!ok"; "return:EBADF"; "endif"; "defer:ref.DecRef"; "wrap:safelyRead:ref"; "switch:ref.pendingXattr.op"; "case:xattrNone"]
-     ++ rg HWrite 0
-     ++ rg HWrite 1
-     ++ ["call:ref.file.WriteAt(t.Data, int64(t.Offset))"; "case:xattrCreate"]
-     ++ rg HWrite 2
-     ++ rg HWrite 3
-     ++ ["set:ref.pendingXattr.buf"; "default"]
-     ++ rg HWrite 4
-     ++ ["endswitch"; "return:err"; "endwrap"; "if:err != nil"; "return:err"; "endif"; "return:&rwrite"])%list);
+     (["lookup:_v0.fid=>_v2"; "if:!_v3"; "return:EBADF"; "endif"; "defer:_v2.DecRef"; "wrap:safelyRead:_v2"; "switch:_v2.pendingXattr.op"; "case:xattrNone"]
+     ++ rg (N "_v0" "" "_v2" "" "") HWrite 0
+     ++ rg (N "_v0" "" "_v2" "" "") HWrite 1
+     ++ ["call:_v2.file.WriteAt(_v0.Data, int64(_v0.Offset))"; "case:xattrCreate"]
+     ++ rg (N "_v0" "" "_v2" "" "") HWrite 2
+     ++ rg (N "_v0" "" "_v2" "" "") HWrite 3
+     ++ ["set:_v2.pendingXattr.buf"; "default"]
+     ++ rg (N "_v0" "" "_v2" "" "") HWrite 4
+     ++ ["endswitch"; "return:_v5"; "endwrap"; "if:_v5 != nil"; "return:err"; "endif"; "return:&rwrite"])%list);
   ("txattrcreate.handle",
-     (["lookup:t.fid"; "if:!ok"; "return:EBADF"; "endif"; "defer:ref.DecRef"; "wrap:safelyWrite:ref"]
-     ++ rg HXattrcreate 0
-     ++ ["set:ref.pendingXattr"; "return:nil"; "endwrap"; "if:err != nil"; "return:err"; "endif"; "return:&rxattrcreate"])%list);
+     (["lookup:_v0.fid=>_v2"; "if:!_v3"; "return:EBADF"; "endif"; "defer:_v2.DecRef"; "wrap:safelyWrite:_v2"]
+     ++ rg (N "" "" "_v2" "" "") HXattrcreate 0
+     ++ ["set:_v2.pendingXattr"; "return:nil"; "endwrap"; "if:_v4 != nil"; "return:err"; "endif"; "return:&rxattrcreate"])%list);
   ("txattrwalk.handle",
-     (["lookup:t.fid"; "if:!ok"; "return:EBADF"; "endif"; "defer:ref.DecRef"; "wrap:safelyRead:ref"]
-     ++ rg HXattrwalk 0
-     ++ ["if:len(t.Name) > 0"; "call:ref.file.GetXattr(t.Name)"; "else"; "call:ref.file.ListXattrs()"; "if:err == nil"; "endif"; "endif"; "if:err != nil"; "return:err"; "endif"; "if:uint32(len(buf)) > maximumLength"; "return:EINVAL"; "endif"; "incref:ref"; "insert:t.newFID:newRef"; "return:nil"; "endwrap"; "if:err != nil"; "return:err"; "endif"; "return:&rxattrwalk"])%list);
+     (["lookup:_v0.fid=>_v2"; "if:!_v3"; "return:EBADF"; "endif"; "defer:_v2.DecRef"; "wrap:safelyRead:_v2"]
+     ++ rg (N "_v0" "" "_v2" "" "") HXattrwalk 0
+     ++ ["if:len(_v0.Name) > 0"; "call:_v2.file.GetXattr(_v0.Name)"; "else"; "call:_v2.file.ListXattrs()"; "if:_v5 == nil"; "endif"; "endif"; "if:_v5 != nil"; "return:_v5"; "endif"; "if:uint32(len(_v6)) > maximumLength"; "return:EINVAL"; "endif"; "incref:_v2"; "insert:_v0.newFID:_v8"; "return:nil"; "endwrap"; "if:_v5 != nil"; "return:err"; "endif"; "return:&rxattrwalk"])%list);
   ("walkOne",
-     (["if:nwname > 1"; "return:nil,nil,AttrMask,Attr,EINVAL"; "endif"; "switch:"; "case:getattr"; "call:from.WalkGetAttr(names)"; "if:!errors.Is(err, linux.ENOSYS)"; "branch:break"; "endif"; "branch:fallthrough"; "default"; "call:from.Walk(names)"; "if:err != nil"; "branch:break"; "endif"; "if:getattr"; "if:nwname == 1"; "tree:fromNode.pathNodeFor(names[0])"; "block{"; "lock:childNode.opMu.RLock"; "defer:childNode.opMu.RUnlock"; "call:sf.GetAttr(AttrMaskAll)"; "}block"; "else"; "call:sf.GetAttr(AttrMaskAll)"; "endif"; "if:err != nil"; "call:sf.Close()"; "endif"; "endif"; "endswitch"; "if:err != nil"; "return:nil,nil,AttrMask,Attr,err"; "endif"; "if:nwname == 1 && len(localQIDs) != 1"; "call:sf.Close()"; "return:nil,nil,AttrMask,Attr,EINVAL"; "endif"; "return:append(qids, localQIDs...),sf,valid,attr,nil"])%list)
+     (["if:_v5 > 1"; "return:nil,nil,AttrMask,Attr,EINVAL"; "endif"; "switch:"; "case:_v4"; "call:<_v1>.WalkGetAttr(_v3)"; "if:!errors.Is(_v10, linux.ENOSYS)"; "branch:break"; "endif"; "branch:fallthrough"; "default"; "call:<_v1>.Walk(_v3)"; "if:_v10 != nil"; "branch:break"; "endif"; "if:_v4"; "if:_v5 == 1"; "tree:_v2.pathNodeFor(_v3[0])"; "block{"; "lock:_v11.opMu.RLock"; "defer:_v11.opMu.RUnlock"; "call:<_v7>.GetAttr(AttrMaskAll)"; "}block"; "else"; "call:<_v7>.GetAttr(AttrMaskAll)"; "endif"; "if:_v10 != nil"; "call:<_v7>.Close()"; "endif"; "endif"; "endswitch"; "if:_v10 != nil"; "return:nil,nil,AttrMask,Attr,_v10"; "endif"; "if:_v5 == 1 && len(_v6) != 1"; "call:<_v7>.Close()"; "return:nil,nil,AttrMask,Attr,EINVAL"; "endif"; "return:append(_v0, _v6...),_v7,_v8,_v9,nil"])%list)
 ].
 
 (** ---- checks on the generated tables ---- *)
 Definition starts (p s : string) : bool := String.eqb (substring 0 (String.length p) s) p.
 Definition has (x : string) (l : list string) : bool := existsb (String.eqb x) l.
 Definition trace_of (fn : string) : list string :=
-  match find (fun e => String.eqb (fst e) fn) handler_traces with Some e => snd e | None => [] end.
+  match find (fun e => String.eqb (fst e) fn) handler_traces_alpha with Some e => snd e | None => [] end.
 
 (** no checkSafeName after a LookupFID *)
 Fixpoint names_first (seen_lookup : bool) (l : list string) : bool :=
@@ -230,16 +238,27 @@ Fixpoint names_first (seen_lookup : bool) (l : list string) : bool :=
               else names_first seen_lookup r
   end.
 
-(** every LookupFID is followed by: if !ok { return EBADF } ; defer <ref>.DecRef() *)
+(** substring helpers *)
+Fixpoint has_infix (p s : string) : bool :=
+  starts p s || match s with EmptyString => false | String _ r => has_infix p r end.
+(** "lookup:<fid>=><var>" -> <var> *)
+Fixpoint after_arrow (s : string) : string :=
+  match s with
+  | EmptyString => EmptyString
+  | String a r => if starts "=>" s then substring 2 (String.length s) s else after_arrow r
+  end.
+
+(** every LookupFID is followed by: if !ok { return EBADF } ; defer <the looked-up variable>.DecRef() *)
 Fixpoint lookups_deferred (l : list string) : bool :=
   match l with
   | [] => true
   | e :: r =>
       (if starts "lookup:" e then
          match r with
-         | "if:!ok" :: ret :: "endif" :: d :: _ =>
-             (String.eqb ret "return:EBADF" || String.eqb ret "return:nil,EBADF")
-             && (String.eqb d "defer:ref.DecRef" || String.eqb d "defer:refTarget.DecRef")
+         | ifnok :: ret :: "endif" :: d :: _ =>
+             starts "if:!" ifnok
+             && (String.eqb ret "return:EBADF" || String.eqb ret "return:nil,EBADF")
+             && negb (String.eqb (after_arrow e) "") && String.eqb d ("defer:" ++ after_arrow e ++ ".DecRef")
          | _ => false
          end
        else true) && lookups_deferred r
@@ -252,8 +271,9 @@ Fixpoint calls_inside (inside : bool) (l : list string) : bool :=
   | e :: r => if starts "wrap:" e then calls_inside true r
               else if String.eqb e "endwrap" then calls_inside false r
               else if starts "call:" e then
-                (inside || starts "call:ref.file.Lock(" e || starts "call:ref.file.StatFS(" e || String.eqb e "call:attacher.Attach()"
-                 || String.eqb e "call:sf.Close()" || starts "call:from." e || starts "call:sf.GetAttr(" e || String.eqb e "call:f.file.Close()")
+                (inside || has_infix ".file.Lock(" e || has_infix ".file.StatFS(" e || String.eqb e "call:attacher.Attach()"
+                 || starts "call:<" e (* a File held in a local: walkOne's from / sf, tattach's sf *)
+                 || String.eqb e "call:_v0.file.Close()" (* fidRef.DecRef *))
                 && calls_inside inside r
               else calls_inside inside r
   end.
@@ -274,25 +294,25 @@ Definition pairb (a b : string * string) : bool := String.eqb (fst a) (fst b) &&
 
 (** is field [f] of message [m] passed to checkSafeName (directly, in the embedded message's do, or component-wise by doWalk)? *)
 Definition field_checked (m f : string) : bool :=
-  let direct fn fld := has ("name:t." ++ fld) (trace_of fn) && names_first false (trace_of fn) in
+  let direct fn fld := has ("name:_v0." ++ fld) (trace_of fn) && names_first false (trace_of fn) in
   let walk_checks := match trace_of "doWalk" with
-                     | "for:range names" :: "name:name" :: "if:err != nil" :: "return:" :: "endif" :: "endfor" :: _ => true
+                     | "for:range _v2" :: "name:_v9" :: "if:_v8 != nil" :: "return:" :: "endif" :: "endfor" :: _ => true
                      | _ => false
                      end in
   if existsb (pairb (m, f)) not_a_component then true
   else if String.eqb f "Names" then
-    walk_checks && (has "delegate:doWalk(cs, ref, t.Names, false)" (trace_of (m ++ ".handle"))
-                    || has "delegate:doWalk(cs, ref, t.Names, true)" (trace_of (m ++ ".handle")))
+    walk_checks && (has "delegate:doWalk(_v1, _v2, _v0.Names, false)" (trace_of (m ++ ".handle"))
+                    || has "delegate:doWalk(_v1, _v2, _v0.Names, true)" (trace_of (m ++ ".handle")))
   else if String.eqb m "tattach" && String.eqb f "Auth.AttachName" then
-    walk_checks && has "delegate:doWalk(cs, root, names, false)" (trace_of "tattach.handle")
+    walk_checks && has "delegate:doWalk(_v1, _v4, _v8, false)" (trace_of "tattach.handle")
   else if starts "t" f && negb (String.eqb (substring 0 2 f) "t.") && Nat.ltb 0 (index_dot f) then
     (* embedded message: tucreate.tlcreate.Name is checked by tlcreate.do, which tucreate.handle calls *)
     let emb := substring 0 (index_dot f) f in
     let fld := substring (S (index_dot f)) (String.length f) f in
-    direct (emb ++ ".do") fld && existsb (starts ("delegate:t." ++ emb ++ ".do(")) (trace_of (m ++ ".handle"))
+    direct (emb ++ ".do") fld && existsb (starts ("delegate:_v0." ++ emb ++ ".do(")) (trace_of (m ++ ".handle"))
   else
     direct (m ++ ".handle") f
-    || (direct (m ++ ".do") f && has "delegate:t.do(cs, NoUID)" (trace_of (m ++ ".handle"))).
+    || (direct (m ++ ".do") f && has "delegate:_v0.do(_v1, NoUID)" (trace_of (m ++ ".handle"))).
 
 Definition all_fields_checked : bool :=
   forallb (fun e => forallb (field_checked (fst e)) (snd e)) tmsg_string_fields.
@@ -301,41 +321,41 @@ Definition all_fields_checked : bool :=
     between Lock and Unlock.  The table go2coq reads from handlers.go / path_tree.go / server.go must
     be this one; connState.handleRequest's receive/send locks are C06's (listed, not judged here). ---- *)
 Definition lock_sites_expected : list (string * string * string) := [
-  ("connState.ClearTag", "cs.tagMu.Lock", "deferred");
-  ("connState.DeleteFID", "cs.fidMu.Lock", "explicit");
-  ("connState.InsertFID", "cs.fidMu.Lock", "explicit-with-calls:newRef.IncRef");
-  ("connState.LookupFID", "cs.fidMu.Lock", "deferred");
-  ("connState.StartTag", "cs.tagMu.Lock", "deferred");
-  ("connState.TagDone", "cs.tagMu.Lock", "deferred");
-  ("connState.handleRequest", "cs.sendMu.Lock", "explicit-with-calls:send");
-  ("connState.handleRequest", "cs.sendMu.Lock", "explicit-with-calls:send,newErr");
-  ("connState.handleRequest", "cs.recvMu.Lock", "explicit-with-calls:atomic.AddInt32,atomic.LoadUint32,recv,cs.server.log.Printf,cs.StartTag,cs.TagDone,atomic.LoadInt32,cs.pendingWg.Add,func-literal,cs.pendingWg.Done,cs.handleRequests");
-  ("fidRef.safelyGlobal", "f.server.renameMu.Lock", "deferred");
-  ("fidRef.safelyRead", "f.server.renameMu.RLock", "deferred");
-  ("fidRef.safelyRead", "f.pathNode.opMu.RLock", "deferred");
-  ("fidRef.safelyWrite", "f.server.renameMu.RLock", "deferred");
-  ("fidRef.safelyWrite", "f.pathNode.opMu.Lock", "deferred");
-  ("pathNode.addChild", "p.childMu.Lock", "explicit-with-calls:p.addChildLocked");
-  ("pathNode.addPathNodeFor", "p.childMu.Lock", "explicit");
-  ("pathNode.forEachChildNode", "p.childMu.RLock", "deferred");
-  ("pathNode.forEachChildRef", "p.childMu.RLock", "deferred");
-  ("pathNode.nameFor", "p.childMu.RLock", "explicit");
-  ("pathNode.pathNodeFor", "p.childMu.Lock", "explicit-with-calls:newPathNode");
-  ("pathNode.pathNodeFor", "p.childMu.RLock", "explicit");
-  ("pathNode.removeChild", "p.childMu.Lock", "explicit");
-  ("pathNode.removeWithName", "p.childMu.Lock", "deferred");
-  ("tlopen.handle", "ref.openMu.Lock", "deferred");
-  ("tunlinkat.handle", "childPathNode.opMu.Lock", "deferred");
-  ("walkOne", "childNode.opMu.RLock", "deferred")
+  ("connState.ClearTag", "_v0.tagMu.Lock", "deferred");
+  ("connState.DeleteFID", "_v0.fidMu.Lock", "explicit");
+  ("connState.InsertFID", "_v0.fidMu.Lock", "explicit-with-calls:_v2.IncRef");
+  ("connState.LookupFID", "_v0.fidMu.Lock", "deferred");
+  ("connState.StartTag", "_v0.tagMu.Lock", "deferred");
+  ("connState.TagDone", "_v0.tagMu.Lock", "deferred");
+  ("connState.handleRequest", "_v0.sendMu.Lock", "explicit-with-calls:send");
+  ("connState.handleRequest", "_v0.sendMu.Lock", "explicit-with-calls:send,newErr");
+  ("connState.handleRequest", "_v0.recvMu.Lock", "explicit-with-calls:atomic.AddInt32,atomic.LoadUint32,recv,_v0.server.log.Printf,_v0.StartTag,_v0.TagDone,atomic.LoadInt32,_v0.pendingWg.Add,func-literal,_v0.pendingWg.Done,_v0.handleRequests");
+  ("fidRef.safelyGlobal", "_v0.server.renameMu.Lock", "deferred");
+  ("fidRef.safelyRead", "_v0.server.renameMu.RLock", "deferred");
+  ("fidRef.safelyRead", "_v0.pathNode.opMu.RLock", "deferred");
+  ("fidRef.safelyWrite", "_v0.server.renameMu.RLock", "deferred");
+  ("fidRef.safelyWrite", "_v0.pathNode.opMu.Lock", "deferred");
+  ("pathNode.addChild", "_v0.childMu.Lock", "explicit-with-calls:_v0.addChildLocked");
+  ("pathNode.addPathNodeFor", "_v0.childMu.Lock", "explicit");
+  ("pathNode.forEachChildNode", "_v0.childMu.RLock", "deferred");
+  ("pathNode.forEachChildRef", "_v0.childMu.RLock", "deferred");
+  ("pathNode.nameFor", "_v0.childMu.RLock", "explicit");
+  ("pathNode.pathNodeFor", "_v0.childMu.Lock", "explicit-with-calls:newPathNode");
+  ("pathNode.pathNodeFor", "_v0.childMu.RLock", "explicit");
+  ("pathNode.removeChild", "_v0.childMu.Lock", "explicit");
+  ("pathNode.removeWithName", "_v0.childMu.Lock", "deferred");
+  ("tlopen.handle", "_v2.openMu.Lock", "deferred");
+  ("tunlinkat.handle", "_v5.opMu.Lock", "deferred");
+  ("walkOne", "_v11.opMu.RLock", "deferred")
 ].
 
 
 (** callees tolerated between an explicit Lock and Unlock: an atomic add, a map allocation, and
     addChildLocked (panics only on a fidRef registered twice, excluded by the path-tree invariant of C08) *)
-Definition tolerated_under_lock : list string := ["newRef.IncRef"; "newPathNode"; "p.addChildLocked"].
+Definition tolerated_under_lock : list string := ["_v2.IncRef" (* InsertFID: newRef.IncRef *); "newPathNode"; "_v0.addChildLocked"].
 
 Definition release_ok (fn rel : string) : bool :=
   String.eqb fn "connState.handleRequest" || String.eqb rel "deferred" || String.eqb rel "explicit"
   || existsb (fun c => String.eqb rel ("explicit-with-calls:" ++ c)) tolerated_under_lock.
 
-Definition locks_released : bool := forallb (fun e => release_ok (fst (fst e)) (snd e)) lock_sites.
+Definition locks_released : bool := forallb (fun e => release_ok (fst (fst e)) (snd e)) lock_sites_alpha.
